@@ -638,7 +638,7 @@ var (
 	uniNamespaces = []string{"a", "b", "c"}
 	uniNames      = []string{"p", "q", "r"}
 	uniKeys       = []string{"x", "y"}
-	uniValues     = []string{"1", "2", "3"}
+	uniValues     = []string{"1", "2", ""} // the empty string is a legal label value, distinct from an absent key
 )
 
 // allLabelMaps: every label map over uniKeys with values from uniValues or absent.
